@@ -2066,3 +2066,22 @@ Proof.
     apply (lookup_nodup p a1 _ Hnd) in H1. apply (lookup_nodup p a2 _ Hnd) in H2.
     rewrite H1 in H2. inversion H2; subst. apply diff_attrs_same.
 Qed.
+
+(* what the four marks mean, on trees *)
+Theorem status_meaning t1 t2 al q :
+  domain_C15 slash t1 t2 al = true ->
+  In q (map fst (nodes_of t1)) \/ In q (map fst (nodes_of t2)) ->
+  (status al (nodes_of t1) (nodes_of t2) q = MRem <->
+     In q (map fst (nodes_of t1)) /\ ~ In q (map fst (nodes_of t2))) /\
+  (status al (nodes_of t1) (nodes_of t2) q = MAdd <->
+     ~ In q (map fst (nodes_of t1)) /\ In q (map fst (nodes_of t2))) /\
+  (status al (nodes_of t1) (nodes_of t2) q = MChg <->
+     exists a1 a2, In (q, a1) (nodes_of t1) /\ In (q, a2) (nodes_of t2) /\ diff_attrs al a1 a2 <> []) /\
+  (status al (nodes_of t1) (nodes_of t2) q = MSame <->
+     In q (map fst (nodes_of t1)) /\ In q (map fst (nodes_of t2)) /\
+     forall a1 a2, In (q, a1) (nodes_of t1) -> In (q, a2) (nodes_of t2) -> diff_attrs al a1 a2 = []).
+Proof.
+  intros Hdom Hq. pose proof (T_HND1 t1 t2 al Hdom) as F1. pose proof (T_HND2 t1 t2 al Hdom) as F2.
+  split; [apply st_rem|]. split; [apply st_add|]. split; [apply st_chg_iff; assumption|].
+  apply st_same_iff; try assumption. apply in_all. exact Hq.
+Qed.
